@@ -71,6 +71,9 @@ pub struct RunCtx {
     pub probes: Cell<u64>,
     pub max_stored: Cell<usize>,
     pub check_lifecycle: Cell<bool>,
+    /// tree programs only: at the end of the body the number of bindings logged through
+    /// process_extension must equal the size of the substitution
+    pub check_ext_union: Cell<bool>,
 }
 
 thread_local! {
